@@ -262,7 +262,9 @@ fn c08_build(cfg: &[u16]) -> Built {
 }
 
 fn c08_owns(d: &Disc, out: &StepOut) -> bool {
-    out.ctx == "MODE#" && not_panic(d) && probe_codes(d, out, &["324", "353", "352", "319", "367", "348", "346"])
+    // the MODE command itself and its probes, plus the enforcement of +t by a later TOPIC
+    (out.ctx == "MODE#" && not_panic(d) && probe_codes(d, out, &["324", "353", "352", "319", "367", "348", "346"]))
+        || (out.ctx == "TOPIC" && !out.is_probe && (d.is_relay(&["TOPIC"]) || d.is_numeric(&["482"])))
 }
 
 fn c08_nontrivial(t: &Trace) -> Option<String> {
@@ -1113,5 +1115,170 @@ pub fn replay_c03(part: &str, input: &Value) -> Option<Result<Result<(), Viol>, 
     match part {
         "sequences_exhaustive" => Some(replay_input::<SeqCase>(input, c03_seq_case)),
         _ => replay_spec(&C03, part, input),
+    }
+}
+
+// ------------------------------------------------------------ C19 (slots): max_connections
+#[derive(Clone, Debug, serde_derive::Serialize, serde_derive::Deserialize)]
+pub struct SlotCase {
+    pub seeds: Vec<u16>,
+}
+
+pub fn c19_slots(c: &SlotCase, st: &mut Stats) -> Result<(), Viol> {
+    use crate::sim::{CloseKind, World};
+    let mut s = S::new(&c.seeds);
+    let seed = s.raw() as u64;
+    let m = 1 + s.pick(5);
+    let mut cfg = CfgSpec::default();
+    cfg.max_connections = Some(m);
+    let with_pw = s.chance(30);
+    if with_pw {
+        cfg.password = Some("srvpass".into());
+    }
+    cfg.opers.push(OperSpec { name: "op0".into(), password: "operpw0".into(), mask: None });
+    let mut w = World::new(cfg.to_main_config(), seed);
+    let mut served: Vec<usize> = vec![]; // connections the model says hold a slot
+    let mut nick_of: std::collections::BTreeMap<usize, String> = Default::default();
+    let mut log: Vec<String> = vec![format!("max_connections = {}", m)];
+    let mut kinds = std::collections::BTreeSet::new();
+    let mut overflow = false;
+    let mut reuse = false;
+    let fail = |sig: &str, msg: String, log: &Vec<String>| Viol::new("C19.connection_slots", format!("slots:{}", sig), msg).with_transcript(log.clone());
+    let steps = 6 + s.pick(24);
+    for step in 0..steps {
+        let open_more = served.len() < m + 2 && (served.is_empty() || s.chance(55));
+        if open_more {
+            let c = w.connect();
+            w.settle();
+            w.send_line(c, "PING probe");
+            w.settle();
+            let ls = w.drain(c);
+            let answers = ls.iter().any(|l| l.contains(" 451 ") || l.contains(" PONG "));
+            let expect_served = served.len() < m;
+            log.push(format!("open c{}: {} (model: {} of {} slots used)", c, if answers { "served" } else if w.conns[c].eof { "refused" } else { "silent" }, served.len(), m));
+            if expect_served {
+                if served.len() + 1 == m {
+                    // at the brink
+                }
+                if !answers {
+                    return Err(fail(
+                        if reuse { "freed-slot-not-reusable" } else { "below-limit-refused" },
+                        format!("connection #{} was not served although only {} of {} slots are in use{}", c, served.len(), m, if reuse { " (a slot was freed before)" } else { "" }),
+                        &log,
+                    ));
+                }
+                served.push(c);
+            } else {
+                overflow = true;
+                if answers || !w.conns[c].eof || !ls.is_empty() {
+                    return Err(fail("over-limit-served", format!("connection #{} was served (or got a reply {:?}) although all {} slots are in use", c, ls, m), &log));
+                }
+            }
+        } else {
+            // end one served connection in some way
+            let i = s.pick(served.len());
+            let c = served[i];
+            let kind = s.pick(7);
+            let kname = match kind {
+                0 => {
+                    w.close(c, CloseKind::Drop);
+                    "drop-unregistered-or-not"
+                }
+                1 => {
+                    w.send_line(c, "QUIT");
+                    "quit"
+                }
+                2 => {
+                    // register (maybe), then quit
+                    if !nick_of.contains_key(&c) {
+                        if with_pw {
+                            w.send_line(c, "PASS srvpass");
+                        }
+                        let n = format!("s{}", c);
+                        w.send_line(c, &format!("NICK {}", n));
+                        w.send_line(c, &format!("USER u{} 0 * :Slot", c));
+                        w.settle();
+                        nick_of.insert(c, n);
+                    }
+                    w.close(c, CloseKind::HalfClose);
+                    "registered-half-close"
+                }
+                3 => {
+                    if with_pw && !nick_of.contains_key(&c) {
+                        w.send_line(c, "PASS wrong");
+                        w.send_line(c, &format!("NICK r{}", c));
+                        w.send_line(c, "USER x 0 * :Refused");
+                        "refused-464"
+                    } else {
+                        w.send_bytes(c, b"\xff\xfe\r\n");
+                        "invalid-utf8"
+                    }
+                }
+                4 => {
+                    w.send_bytes(c, format!("PING {}\r\n", "z".repeat(2100)).as_bytes());
+                    "over-long"
+                }
+                5 => {
+                    w.send_bytes(c, b"PRIVMSG x :unfinished");
+                    w.close(c, CloseKind::Drop);
+                    "drop-mid-line"
+                }
+                _ => {
+                    // registration refused for a nick in use, then dropped
+                    let taken = nick_of.values().next().cloned();
+                    if let (Some(t), false) = (taken, nick_of.contains_key(&c)) {
+                        w.send_line(c, &format!("NICK {}", t));
+                        w.settle();
+                    }
+                    w.close(c, CloseKind::Drop);
+                    "drop-after-433"
+                }
+            };
+            w.settle();
+            w.drain(c);
+            // fatal input may or may not close the connection; if it is still open, close it
+            if !w.conns[c].eof && w.conns[c].io.is_some() {
+                w.close(c, CloseKind::Drop);
+                w.settle();
+            }
+            kinds.insert(kname);
+            served.remove(i);
+            nick_of.remove(&c);
+            reuse = true;
+            log.push(format!("end c{} by {} (model: {} of {} slots used)", c, kname, served.len(), m));
+        }
+        let _ = step;
+        for p in crate::sim::take_panics() {
+            if p.task.is_some() {
+                return Err(fail("panic", format!("handler aborted: {} at {}", p.msg, p.loc), &log));
+            }
+        }
+    }
+    crate::sim::set_in_sim(false);
+    if overflow && reuse {
+        st.nontrivial(format!("m{}|{:?}", m, kinds), || json!({"max_connections": m, "end_kinds": kinds, "log": log.iter().take(30).collect::<Vec<_>>()}));
+    }
+    Ok(())
+}
+
+use serde_json::json;
+
+pub fn run_c19(ctx: &RunCtx) -> Vec<PartOutcome> {
+    use proptest::prelude::*;
+    let mut parts = run_spec(ctx, &C19, 6000, 100000);
+    parts.push(explore(
+        ctx,
+        "connection_slots",
+        ctx.tier.pick(3_000, 50_000),
+        || prop::collection::vec(any::<u16>(), 80).prop_map(|seeds| SlotCase { seeds }),
+        c19_slots,
+    ));
+    parts
+}
+
+pub fn replay_c19(part: &str, input: &Value) -> Option<Result<Result<(), Viol>, String>> {
+    match part {
+        "connection_slots" => Some(replay_input::<SlotCase>(input, c19_slots)),
+        _ => replay_spec(&C19, part, input),
     }
 }
